@@ -49,7 +49,7 @@ Proof. intros. simpl. rewrite goeq_map_loop. reflexivity. Qed.
 
 (* where the comparison is total: repaired tree, or no int above MaxInt64 on either side *)
 Definition eq_total (q : quirks) (x y : node) : Prop :=
-  q_uint_asint q = false \/ (nobig x = true /\ nobig y = true).
+  q_eq_asint q = false \/ (nobig x = true /\ nobig y = true).
 
 Lemma eq_total_list : forall q a xs b ys,
   eq_total q (NList (a :: xs)) (NList (b :: ys)) -> eq_total q a b /\ eq_total q (NList xs) (NList ys).
@@ -62,11 +62,11 @@ Definition DE (q : quirks) (x : node) : Prop :=
   forall y, eq_total q x y -> deep_equal q x y = ROk (dm_goeq (abs x) (abs y)).
 
 Lemma zip_lists : forall q xs, Forall (DE q) xs -> forall ys,
-  (q_uint_asint q = false \/ (forallb nobig xs = true /\ forallb nobig ys = true)) ->
+  (q_eq_asint q = false \/ (forallb nobig xs = true /\ forallb nobig ys = true)) ->
   zip_r (deep_equal q) xs ys = ROk (zip_b dm_goeq (map abs xs) (map abs ys)).
 Proof.
   induction 1 as [|a xs Ha Hxs IH]; intros ys Hq; destruct ys as [|b ys]; simpl; auto.
-  assert (Hab : eq_total q a b /\ (q_uint_asint q = false \/ (forallb nobig xs = true /\ forallb nobig ys = true))).
+  assert (Hab : eq_total q a b /\ (q_eq_asint q = false \/ (forallb nobig xs = true /\ forallb nobig ys = true))).
   { destruct Hq as [Hq|[H1 H2]]; [split; left; auto|].
     simpl in H1, H2. apply andb_true_iff in H1, H2. destruct H1, H2. split; right; auto. }
   destruct Hab as [Hab Hrest]. rewrite (Ha b Hab). rewrite (IH ys Hrest).
@@ -74,13 +74,13 @@ Proof.
 Qed.
 
 Lemma zip_maps : forall q xt, Forall (fun kv => DE q (snd kv)) xt -> forall yt : list (bytes * node),
-  (q_uint_asint q = false \/
+  (q_eq_asint q = false \/
    (forallb (fun kv => nobig (snd kv)) xt = true /\ forallb (fun kv => nobig (snd kv)) yt = true)) ->
   zip_kv (deep_equal q) xt (map (fun kv => (NString (fst kv), snd kv)) yt) =
   ROk (zip_kvb dm_goeq (map absent xt) (map absent yt)).
 Proof.
   induction 1 as [|[k a] xt Ha Hxs IH]; intros yt Hq; destruct yt as [|[k' b] yt]; simpl; auto.
-  assert (Hab : eq_total q a b /\ (q_uint_asint q = false \/
+  assert (Hab : eq_total q a b /\ (q_eq_asint q = false \/
      (forallb (fun kv => nobig (snd kv)) xt = true /\ forallb (fun kv => nobig (snd kv)) yt = true))).
   { destruct Hq as [Hq|[H1 H2]]; [split; left; auto|].
     simpl in H1, H2. apply andb_true_iff in H1, H2. destruct H1, H2. split; right; auto. }
@@ -98,13 +98,13 @@ Qed.
 
 Lemma nobig_children_l : forall q x y xs ys,
   eq_total q x y -> nobig x = forallb nobig xs -> nobig y = forallb nobig ys ->
-  q_uint_asint q = false \/ (forallb nobig xs = true /\ forallb nobig ys = true).
+  q_eq_asint q = false \/ (forallb nobig xs = true /\ forallb nobig ys = true).
 Proof. intros q x y xs ys [H|[H1 H2]] Hx Hy; [left; auto|right; split; congruence]. Qed.
 
 Lemma nobig_children_m : forall q x y (xs ys : list (bytes * node)),
   eq_total q x y -> nobig x = forallb (fun kv => nobig (snd kv)) xs ->
   nobig y = forallb (fun kv => nobig (snd kv)) ys ->
-  q_uint_asint q = false \/
+  q_eq_asint q = false \/
   (forallb (fun kv => nobig (snd kv)) xs = true /\ forallb (fun kv => nobig (snd kv)) ys = true).
 Proof. intros q x y xs ys [H|[H1 H2]] Hx Hy; [left; auto|right; split; congruence]. Qed.
 
@@ -168,9 +168,9 @@ Proof.
   10: { apply (de_list_case q x); auto. }
   10: { apply (de_map_case q t); auto. }
   all: destruct y; try reflexivity.
-  all: try (simpl; unfold scalar_equal; simpl; destruct (q_uint_asint q) eqn:Eq; try reflexivity;
+  all: try (simpl; unfold scalar_equal; simpl; destruct (q_eq_asint q) eqn:Eq; try reflexivity;
             destruct Ht as [Hq|[H1 H2]]; [congruence|]; simpl in H1, H2; try rewrite H1; try rewrite H2; reflexivity).
-  all: simpl; unfold scalar_equal; simpl; destruct (q_uint_asint q); reflexivity.
+  all: simpl; unfold scalar_equal; simpl; destruct (q_eq_asint q); reflexivity.
 Qed.
 
 (* ------------------------------------------------------------------ Copy *)
@@ -202,20 +202,19 @@ Qed.
 
 (* the calls Copy makes form a legal script for the node's abstract value *)
 Lemma copy_script_legal : forall q n,
-  wf n -> (q_uint_asint q = false \/ forall z, n = NUint z -> (z < two63z)%Z) ->
+  wf n -> (q_copy_asint q = false \/ forall z, n = NUint z -> (z < two63z)%Z) ->
   exists ops, copy_script q n = Ok ops /\ AScript (abs n) (map ok ops).
 Proof.
-  intros q n Hw Hu. destruct n; simpl.
+  intros q n Hw Hu. destruct n; unfold copy_script; simpl.
   all: try (eexists; split; [reflexivity|]; simpl; constructor; fail).
-  - (* NInt *) destruct (q_uint_asint q); eexists; (split; [reflexivity|]); simpl; constructor.
+  - (* NInt *) destruct (q_copy_asint q); eexists; (split; [reflexivity|]); simpl; constructor.
   - (* NUint *)
-    destruct (q_uint_asint q) eqn:Eq.
+    destruct (q_copy_asint q) eqn:Eq.
     + destruct Hu as [Hu|Hu]; [discriminate|]. specialize (Hu z eq_refl).
       apply Z.ltb_lt in Hu. rewrite Hu. eexists. split; [reflexivity|]. simpl. constructor.
     + destruct (z <? two63z)%Z; eexists; (split; [reflexivity|]); simpl.
       * constructor.
       * apply (AS_node (NUint z)). auto.
-  - (* NStream *) eexists. split; [reflexivity|]. simpl. constructor.
   - (* NList *) inversion Hw; subst. eexists. split; [reflexivity|]. simpl map.
     constructor. apply copy_list_body. auto.
   - (* NMap *) inversion Hw; subst. eexists. split; [reflexivity|]. simpl map.
@@ -228,7 +227,7 @@ Qed.
 
 (* Copy into Prototype.Any reproduces the value *)
 Theorem copy_any : forall q n,
-  wf n -> (q_uint_asint q = false \/ forall z, n = NUint z -> (z < two63z)%Z) ->
+  wf n -> (q_copy_asint q = false \/ forall z, n = NUint z -> (z < two63z)%Z) ->
   exists n', copy q PAny n = ROk n' /\ abs n' = abs n /\ wf n'.
 Proof.
   intros q n Hw Hu.
@@ -240,21 +239,36 @@ Proof.
 Qed.
 
 (* Copy of a map into Prototype.Map, of a list into Prototype.List *)
+Lemma copy_script_map : forall q n, wf n -> kind_of n = KMap ->
+  exists h body m', copy_script q n = Ok (BeginMap h :: body) /\ abs n = DMap m' /\
+                    MapBody AScript [] m' (map ok body).
+Proof.
+  intros q n Hw Hk. destruct n; simpl in Hk; try discriminate; inversion Hw; subst.
+  - eexists. eexists. eexists. split; [reflexivity|]. split; [reflexivity|]. apply copy_map_body; auto.
+  - eexists. eexists. eexists. split; [reflexivity|]. split; [reflexivity|]. apply copy_map_body; auto.
+Qed.
+
+Lemma copy_script_list : forall q n, wf n -> kind_of n = KList ->
+  exists h body l', copy_script q n = Ok (BeginList h :: body) /\ abs n = DList l' /\
+                    ListBody AScript l' (map ok body).
+Proof.
+  intros q n Hw Hk. destruct n; simpl in Hk; try discriminate; inversion Hw; subst.
+  - eexists. eexists. eexists. split; [reflexivity|]. split; [reflexivity|]. apply copy_list_body; auto.
+  - eexists. eexists. eexists. split; [reflexivity|]. split; [reflexivity|]. apply copy_list_body; auto.
+Qed.
+
 Theorem copy_map : forall q n,
   wf n -> kind_of n = KMap ->
   exists n', copy q PMap n = ROk n' /\ abs n' = abs n /\ wf n'.
 Proof.
   intros q n Hw Hk.
-  destruct (copy_script_legal q n Hw) as (ops & Hc & Hs).
-  { right. intros z E. subst. discriminate. }
-  assert (Hp : AScriptP q PMap (abs n) (map ok ops)).
-  { inversion Hs; subst; try (destruct n; discriminate).
-    - destruct n; simpl in Hk, Hc; try discriminate; inversion Hc.
-    - apply (AP_map_begin q [] h m body); auto. }
-  destruct (ascript_run q PMap (abs n) (map ok ops) Hp) as (n' & Hr & Hn & Hw').
+  destruct (copy_script_map q n Hw Hk) as (h & body & m' & Hc & Ha & Hb).
+  assert (Hp : AScriptP q PMap (abs n) (map ok (BeginMap h :: body))).
+  { rewrite Ha. apply (AP_map_begin q [] h m' (map ok body)); auto. }
+  destruct (ascript_run q PMap (abs n) _ Hp) as (n' & Hr & Hn & Hw').
   exists n'. split; auto. unfold copy. rewrite Hc.
   rewrite !map_map in Hr. simpl in Hr. rewrite map_id in Hr.
-  rewrite (run_tol_steps q ops (init PMap) (SDone PMap n')); auto.
+  rewrite (run_tol_steps q _ (init PMap) (SDone PMap n')); auto.
 Qed.
 
 Theorem copy_list : forall q n,
@@ -262,16 +276,13 @@ Theorem copy_list : forall q n,
   exists n', copy q PList n = ROk n' /\ abs n' = abs n /\ wf n'.
 Proof.
   intros q n Hw Hk.
-  destruct (copy_script_legal q n Hw) as (ops & Hc & Hs).
-  { right. intros z E. subst. discriminate. }
-  assert (Hp : AScriptP q PList (abs n) (map ok ops)).
-  { inversion Hs; subst; try (destruct n; discriminate).
-    - destruct n; simpl in Hk, Hc; try discriminate; inversion Hc.
-    - apply (AP_list_begin q [] h l body); auto. }
-  destruct (ascript_run q PList (abs n) (map ok ops) Hp) as (n' & Hr & Hn & Hw').
+  destruct (copy_script_list q n Hw Hk) as (h & body & l' & Hc & Ha & Hb).
+  assert (Hp : AScriptP q PList (abs n) (map ok (BeginList h :: body))).
+  { rewrite Ha. apply (AP_list_begin q [] h l' (map ok body)); auto. }
+  destruct (ascript_run q PList (abs n) _ Hp) as (n' & Hr & Hn & Hw').
   exists n'. split; auto. unfold copy. rewrite Hc.
   rewrite !map_map in Hr. simpl in Hr. rewrite map_id in Hr.
-  rewrite (run_tol_steps q ops (init PList) (SDone PList n')); auto.
+  rewrite (run_tol_steps q _ (init PList) (SDone PList n')); auto.
 Qed.
 
 (* the pinned tree: Copy of an int above MaxInt64 fails, DeepEqual on it panics *)
